@@ -346,6 +346,7 @@ PROPERTIES = {
             ('C12-R6', cextra.rule_same_name_forwarding, 'quick'),
             ('C02-R7', c02.rule_nodir, 'quick'),  # the NODIR exclusion must see the NEGATEALL default
             ('C04-R3', cglob.rule_follow_rule, 'quick'),  # round 4: a seeded change of C07 was visible to this rule only
+            ('C02-R9', cextra.rule_references_table, 'quick'),  # escapes must consume what they escape (SPLIT pre-pass)
         ],
     },
     'C08': {
@@ -381,6 +382,7 @@ PROPERTIES = {
             ('C09-R5', cextra.rule_is_magic_guard, 'quick'),
             ('C12-R6', cextra.rule_same_name_forwarding, 'quick'),
             ('C20-R3', c20.rule_translation_table, 'quick'),
+            ('C02-R9', cextra.rule_references_table, 'quick'),  # escapes must consume what they escape (SPLIT pre-pass)
         ],
     },
     'C10': {
